@@ -193,24 +193,65 @@ func VerifC20Sequences() {
 	verifnd.Reach("C20.seq.done")
 }
 
-// VerifC08Region: a region query with arbitrary float32 corners (every bit pattern, including NaN and the
-// infinities) against a small grid with one stored plane: no index out of range, no impossible allocation.
+// VerifC08Region: a region query against a grid of 3x3 cells holding two planes; one coordinate of its
+// corners is an arbitrary float32 (every bit pattern), the others are ordinary values inside or around the
+// grid: no index out of range, and only stored planes are returned.
 func VerifC08Region() {
 	g := NewRegularGrid(1, 1, 2)
 	g.InsertQuad(menuQuad(0))
 	g.InsertQuad(menuQuad(4))
-	min := Vector3f{verifnd.F32(), verifnd.F32(), verifnd.F32()}
-	max := Vector3f{verifnd.F32(), verifnd.F32(), verifnd.F32()}
-	res := g.GetRegion(min, max)
+	def := [6]float32{0.5, 0, 0.5, 3.5, 0, 3.5}
+	if verifnd.Bool() {
+		def = [6]float32{-1, 0, -1, 100, 0, 100}
+	}
+	v := oneFree(verifnd.Choice(6), def)
+	res := g.GetRegion(Vector3f{v[0], v[1], v[2]}, Vector3f{v[3], v[4], v[5]})
 	verifnd.Assert(len(res) <= 2, "C08.region.returns_stored_planes_only")
 	verifnd.Reach("C08.region.done")
 }
 
-// VerifC08Ray: a ground-plane ray with arbitrary float32 end points against the same grid: no panic.
-func VerifC08Ray() {
+// VerifC08RegionFree: the same query with all four horizontal coordinates arbitrary at once.
+func VerifC08RegionFree() {
 	g := NewRegularGrid(1, 1, 2)
 	g.InsertQuad(menuQuad(0))
-	r := Ray{From: Vector3f{verifnd.F32(), verifnd.F32(), verifnd.F32()}, To: Vector3f{verifnd.F32(), verifnd.F32(), verifnd.F32()}}
-	g.IntersectQuad(r)
+	g.InsertQuad(menuQuad(4))
+	res := g.GetRegion(Vector3f{verifnd.F32(), 0, verifnd.F32()}, Vector3f{verifnd.F32(), 0, verifnd.F32()})
+	verifnd.Assert(len(res) <= 2, "C08.region.returns_stored_planes_only")
+	verifnd.Reach("C08.region.done")
+}
+
+// VerifC08Ray: a ground-plane ray against the same grid: a ray inside the grid, or one that crosses it from
+// beyond its far corner, with one coordinate an arbitrary float32: no panic, and the walk over the cells ends.
+func VerifC08Ray() {
+	g := NewRegularGrid(1, 1, 2)
+	g.ExpandToFitPoint(&Vector3f{5, 0, 5}) // 3x3 cells, no stored plane: the walk itself is the subject
+	def := [6]float32{0.5, 1, 0.5, 1.5, -1, 3.5}
+	if verifnd.Bool() {
+		def = [6]float32{1, 1, 9, 1.5, -1, -5}
+	}
+	v := oneFree(verifnd.Choice(6), def)
+	g.IntersectQuad(Ray{From: Vector3f{v[0], v[1], v[2]}, To: Vector3f{v[3], v[4], v[5]}})
 	verifnd.Reach("C08.ray.done")
+}
+
+// oneFree returns six coordinates: the one chosen by which is an arbitrary float32 (every bit pattern,
+// including NaN, the infinities and the largest finite values), the others keep the given defaults.
+func oneFree(which int, def [6]float32) [6]float32 {
+	def[which] = verifnd.F32()
+	return def
+}
+
+// VerifC08InsertFar: one ground-plane sample with one coordinate of its centre or extents far away
+// (64 m or more from the origin), huge, infinite or NaN — any such float32 — and the others ordinary: the
+// grid never allocates more than a server survives and nothing panics. (Samples within 64 m are the subject
+// of the C20 harnesses; paths are followed up to the first allocation of more than a dozen cells.)
+func VerifC08InsertFar() {
+	g := NewRegularGrid(1, 1, 2)
+	which := verifnd.Choice(6)
+	v := oneFree(which, [6]float32{0.5, 0, 0.5, 0.25, 0, 0.25})
+	far := v[which]
+	verifnd.Assume(!(far > -64 && far < 64))
+	q := Quad{Center: Vector3f{v[0], v[1], v[2]}, Extents: Vector3f{v[3], v[4], v[5]}, Normal: Vector3f{0, 1, 0}}
+	g.InsertQuad(q)
+	verifnd.Reach("C08.insert_far.returned")
 }
